@@ -193,11 +193,88 @@ Section Trust.
   Lemma move_fold_cache rk t news : forall st, s_cache (fold_left (move_output rk t) news st) = s_cache st.
   Proof. induction news as [|on news IH]; intros st; cbn [fold_left]; [reflexivity|]. rewrite IH. reflexivity. Qed.
 
+  Lemma restore_fold_outs rk t cached : forall st rel, ~ In rel (map (out_rel t) (map fst cached)) ->
+    s_outs (fold_left (restore_output rk t) cached st) rel = s_outs st rel.
+  Proof.
+    induction cached as [|on cached IH]; intros st rel Hn; cbn [fold_left]; [reflexivity|].
+    rewrite IH by (intros H; apply Hn; right; exact H).
+    unfold restore_output. apply set_out_other. intros ->. apply Hn. left. reflexivity.
+  Qed.
+  Lemma restore_fold_cache rk t cached : forall st, s_cache (fold_left (restore_output rk t) cached st) = s_cache st.
+  Proof. induction cached as [|on cached IH]; intros st; cbn [fold_left]; [reflexivity|]. rewrite IH. reflexivity. Qed.
+  Lemma restore_fold_exact rk t cached : forall st, NoDup (map fst cached) -> forall o n, In (o, n) cached ->
+    s_outs (fold_left (restore_output rk t) cached st) (out_rel t o) = Some (mkE n (Some rk)).
+  Proof.
+    induction cached as [|[o' n'] cached IH]; intros st Hnd o n Hin; [destruct Hin|].
+    cbn [fold_left]. cbn [map fst] in Hnd. inversion Hnd as [|? ? Hnot Hnd']; subst.
+    destruct Hin as [E|Hin]; [|apply IH; assumption].
+    injection E as -> ->. rewrite restore_fold_outs.
+    - unfold restore_output. cbn [fst snd]. apply set_out_same.
+    - intros Hi. apply in_map_iff in Hi. destruct Hi as [o2 [Hrel Ho2]]. apply join_inj in Hrel. subst o2. contradiction.
+  Qed.
+
+  (* the declared outputs now hold exactly the result of the action, under its record: Trust *)
+  Lemma trust_written st st' t ins news : Trust st -> U t -> NoDup (outputs t) ->
+    Forall good (map snd ins) -> act (t_kind t) (outputs t) (tmp_ins ins) = Some news ->
+    (forall o n, In (o, n) news -> s_outs st' (out_rel t o) = Some (mkE n (Some (t_defkey t, key_of ins)))) ->
+    (forall rel, ~ In rel (map (out_rel t) (map fst news)) -> s_outs st' rel = s_outs st rel) ->
+    s_cache st' = s_cache st -> Trust st'.
+  Proof.
+    intros T Ut Hnd Hgood Ea Hexact Hframe Hcache.
+    pose proof (act_names _ _ _ _ Ea) as Hnames.
+    assert (Hgood' : Forall good (map snd (tmp_ins ins))) by (unfold tmp_ins; rewrite map_map; cbn [snd]; exact Hgood).
+    pose proof (act_good t _ _ Ut Hgood' Ea) as Hng.
+    constructor.
+    - intros rel e H. destruct (in_dec (list_eq_dec N.eq_dec) rel (map (out_rel t) (map fst news))) as [Hi|Hni].
+      + apply in_map_iff in Hi. destruct Hi as [o [<- Ho]]. apply in_map_iff in Ho. destruct Ho as [[o1 n] [<- Hon]].
+        cbn [fst] in H. rewrite (Hexact _ _ Hon) in H. injection H as <-. cbn [e_node].
+        rewrite Forall_forall in Hng. apply Hng. change n with (snd (o1, n)). apply in_map. exact Hon.
+      + rewrite Hframe in H by exact Hni. eapply (tr_good _ T). exact H.
+    - intros rel e dk sk H Hr t' o' Ut' Hdk Ho' Hrel.
+      destruct (in_dec (list_eq_dec N.eq_dec) rel (map (out_rel t) (map fst news))) as [Hi|Hni].
+      + apply in_map_iff in Hi. destruct Hi as [o [Hrel2 Ho]]. apply in_map_iff in Ho. destruct Ho as [[o1 n] [<- Hon]].
+        cbn [fst] in Hrel2. rewrite <- Hrel2 in H. rewrite (Hexact _ _ Hon) in H. injection H as <-. cbn [e_rec e_node] in *.
+        injection Hr as <- <-.
+        assert (t' = t) by (apply U_inj; assumption). subst t'. rewrite <- Hrel2 in Hrel. apply join_inj in Hrel. subst o'.
+        intros ins' Hk Hg'. assert (ins' = ins) by (apply key_inj; assumption). subst ins'.
+        exists news. split; [exact Ea|]. apply alookup_in; [rewrite Hnames; exact Hnd|exact Hon].
+      + rewrite Hframe in H by exact Hni. eapply (tr_rec _ T); eassumption.
+    - intros l dk sk cached H. rewrite Hcache in H. eapply (tr_cache _ T). exact H.
+  Qed.
+
+  (* storeInCache: the entry stored under (label, rule key, source key) is the result of the action *)
+  Lemma trust_set_cache st t ins news : Trust st -> U t -> Forall good (map snd ins) ->
+    act (t_kind t) (outputs t) (tmp_ins ins) = Some news ->
+    Trust (set_cache st (t_label t) (t_defkey t, key_of ins) news).
+  Proof.
+    intros T Ut Hgood Ea. constructor.
+    - intros rel e H. eapply (tr_good _ T). exact H.
+    - intros rel e dk sk H. eapply (tr_rec _ T). exact H.
+    - intros l dk sk cached H t' ins' Ut' Hl Hdk Hk Hg'. cbn [s_cache set_cache] in H.
+      destruct (str_eqb_spec l (t_label t)) as [El|_]; cbn [andb] in H.
+      + destruct (rkey_eqb_spec (dk, sk) (t_defkey t, key_of ins)) as [Ek|_].
+        * injection H as <-. injection Ek as Edk Esk.
+          assert (t' = t) by (apply U_inj; congruence). subst t'.
+          assert (ins' = ins) by (apply key_inj; congruence). subst ins'. exact Ea.
+        * eapply (tr_cache _ T); eassumption.
+      + eapply (tr_cache _ T); eassumption.
+  Qed.
+
+  Lemma current_outs_exact t st news : map fst news = outputs t ->
+    (forall o n, In (o, n) news -> exists rc, s_outs st (out_rel t o) = Some (mkE n rc)) ->
+    current_outs t st = news.
+  Proof.
+    unfold current_outs. intros <-. induction news as [|[o n] news IH]; intros H; [reflexivity|].
+    cbn [map fst flat_map]. destruct (H o n (or_introl eq_refl)) as [rc ->]. cbn [e_node app].
+    f_equal. apply IH. intros o' n' Hin. apply H. right. exact Hin.
+  Qed.
+
   (* ---------------------------------------------------------------------------------------- *)
   (* one step, seen from one side: the result is a function of the inputs read from the store *)
 
   Definition rule_spec (rn rn' : run) (t : target) : Prop :=
     Trust (rn_st rn')
+    /\ (forall rel, ~ In rel (out_rels t) -> s_outs (rn_st rn') rel = s_outs (rn_st rn) rel)
     /\ match gather (read r (rn_st rn)) (all_paths r t) with
        | Some ins =>
            match act (t_kind t) (outputs t) (tmp_ins ins) with
@@ -208,8 +285,8 @@ Section Trust.
        | None => rn_failed rn' = t_label t :: rn_failed rn
        end.
 
-  Lemma build_rule_spec rn done t todo : r_targets r = done ++ t :: todo -> is_filegroup t = false ->
-    Trust (rn_st rn) -> rule_spec rn (build_rule false r rn t) t.
+  Lemma build_rule_spec c rn done t todo : r_targets r = done ++ t :: todo -> is_filegroup t = false ->
+    Trust (rn_st rn) -> rule_spec rn (build_rule c r rn t) t.
   Proof.
     intros Hs Hfg T.
     assert (Ht : In t (r_targets r)) by (rewrite Hs; apply in_or_app; right; left; reflexivity).
@@ -219,47 +296,60 @@ Section Trust.
     assert (Hsk : source_key r (rn_st rn) t = option_map key_of (gather (read r (rn_st rn)) (all_paths r t)))
       by (unfold source_key; rewrite Hiter; reflexivity).
     destruct (needs_build r (rn_st rn) t) eqn:Enb; cbn [negb].
-    - (* the command runs *)
-      rewrite Hsk. destruct (gather (read r (rn_st rn)) (all_paths r t)) as [ins|] eqn:Eg; cbn [option_map].
-      2:{ unfold fail_run. cbn [rn_st rn_failed]. split; [apply trust_remove; exact T|reflexivity]. }
-      unfold run_action. rewrite Eg.
+    - rewrite Hsk. destruct (gather (read r (rn_st rn)) (all_paths r t)) as [ins|] eqn:Eg; cbn [option_map].
+      2:{ unfold fail_run. cbn [rn_st rn_failed]. split; [apply trust_remove; exact T|].
+          split; [intros rel Hn; apply remove_outputs_outs; exact Hn|reflexivity]. }
       pose proof (gather_good _ _ _ T Eg) as Hgood.
-      assert (Hgood' : Forall good (map snd (tmp_ins ins))).
-      { unfold tmp_ins. rewrite map_map. cbn [snd]. exact Hgood. }
-      destruct (act (t_kind t) (outputs t) (tmp_ins ins)) as [news|] eqn:Ea.
-      2:{ cbn [rn_st rn_failed]. split; [apply trust_remove; exact T|reflexivity]. }
-      cbn [rn_st rn_failed].
-      pose proof (act_names _ _ _ _ Ea) as Hnames.
-      pose proof (act_good t _ _ Ut Hgood' Ea) as Hng.
       set (rk := (t_defkey t, key_of ins)).
-      set (st0 := set_meta (rn_st rn) (t_label t)).
-      assert (G0 : AllGood st0) by (intros rel e H; eapply (tr_good _ T); exact H).
-      assert (Hexact : forall o n, In (o, n) news ->
-                s_outs (fold_left (move_output rk t) news st0) (out_rel t o) = Some (mkE n (Some rk))).
-      { apply move_fold_exact; try assumption. rewrite Hnames. exact Hnd. }
-      split.
-      + constructor.
-        * intros rel e H. destruct (in_dec (list_eq_dec N.eq_dec) rel (map (out_rel t) (map fst news))) as [Hi|Hni].
-          -- apply in_map_iff in Hi. destruct Hi as [o [<- Ho]]. apply in_map_iff in Ho. destruct Ho as [[o1 n] [<- Hon]].
-             cbn [fst] in H. rewrite (Hexact _ _ Hon) in H. injection H as <-. cbn [e_node].
-             rewrite Forall_forall in Hng. apply Hng. change n with (snd (o1, n)). apply in_map. exact Hon.
-          -- rewrite move_fold_outs in H by exact Hni. eapply G0. exact H.
-        * intros rel e dk sk H Hr t' o' Ut' Hdk Ho' Hrel.
-          destruct (in_dec (list_eq_dec N.eq_dec) rel (map (out_rel t) (map fst news))) as [Hi|Hni].
-          -- apply in_map_iff in Hi. destruct Hi as [o [Hrel2 Ho]]. apply in_map_iff in Ho. destruct Ho as [[o1 n] [<- Hon]].
-             cbn [fst] in Hrel2. rewrite <- Hrel2 in H. rewrite (Hexact _ _ Hon) in H. injection H as <-. cbn [e_rec e_node] in *.
-             injection Hr as <- <-.
-             assert (t' = t) by (apply U_inj; assumption). subst t'. rewrite <- Hrel2 in Hrel. apply join_inj in Hrel. subst o'.
-             intros ins' Hk Hg'. assert (ins' = ins) by (apply key_inj; assumption). subst ins'.
-             exists news. split; [exact Ea|]. apply alookup_in; [rewrite Hnames; exact Hnd|exact Hon].
-          -- rewrite move_fold_outs in H by exact Hni. subst st0. rewrite set_meta_outs in H.
-             eapply (tr_rec _ T); eassumption.
-        * intros l dk sk cached H. rewrite move_fold_cache in H. subst st0. cbn in H. eapply (tr_cache _ T). exact H.
-      + split; [reflexivity|]. intros o Ho. rewrite <- Hnames in Ho.
-        destruct (alookup_names news o Ho) as [n Hn]. rewrite Hn.
-        unfold out_of. rewrite (Hexact o n (alookup_some_in _ _ _ Hn)). reflexivity.
+      destruct (if c then s_cache (rn_st rn) (t_label t) rk else None) as [cached|] eqn:Ec.
+      + (* restored from the cache *)
+        assert (Hc : s_cache (rn_st rn) (t_label t) rk = Some cached) by (destruct c; [exact Ec|discriminate]).
+        pose proof (tr_cache _ T _ _ _ _ Hc t ins Ut eq_refl eq_refl eq_refl Hgood) as Ea. rewrite Ea.
+        pose proof (act_names _ _ _ _ Ea) as Hnames. cbn [rn_st rn_failed].
+        set (st' := set_meta (fold_left (restore_output rk t) cached (rn_st rn)) (t_label t)).
+        assert (Hexact : forall o n, In (o, n) cached -> s_outs st' (out_rel t o) = Some (mkE n (Some rk))).
+        { intros o n Hin. subst st'. rewrite set_meta_outs. apply restore_fold_exact; [rewrite Hnames; exact Hnd|exact Hin]. }
+        assert (Hframe : forall rel, ~ In rel (map (out_rel t) (map fst cached)) -> s_outs st' rel = s_outs (rn_st rn) rel).
+        { intros rel Hn. subst st'. rewrite set_meta_outs. apply restore_fold_outs. exact Hn. }
+        split; [|split; [|split]].
+        * eapply (trust_written (rn_st rn) st' t ins cached); try eassumption.
+          subst st'. cbn [s_cache set_meta]. apply restore_fold_cache.
+        * intros rel Hn. apply Hframe. rewrite Hnames. exact Hn.
+        * reflexivity.
+        * intros o Ho. rewrite <- Hnames in Ho. destruct (alookup_names cached o Ho) as [n Hn]. rewrite Hn.
+          unfold out_of. rewrite (Hexact o n (alookup_some_in _ _ _ Hn)). reflexivity.
+      + (* the command runs *)
+        unfold run_action. rewrite Eg.
+        destruct (act (t_kind t) (outputs t) (tmp_ins ins)) as [news|] eqn:Ea.
+        2:{ cbn [rn_st rn_failed]. split; [apply trust_remove; exact T|].
+            split; [intros rel Hn; apply remove_outputs_outs; exact Hn|reflexivity]. }
+        cbn [rn_st rn_failed].
+        pose proof (act_names _ _ _ _ Ea) as Hnames.
+        assert (Hgood' : Forall good (map snd (tmp_ins ins))) by (unfold tmp_ins; rewrite map_map; cbn [snd]; exact Hgood).
+        pose proof (act_good t _ _ Ut Hgood' Ea) as Hng.
+        set (st0 := set_meta (rn_st rn) (t_label t)).
+        set (st1 := fold_left (move_output rk t) news st0).
+        assert (G0 : AllGood st0) by (intros rel e H; eapply (tr_good _ T); exact H).
+        assert (Hexact : forall o n, In (o, n) news -> s_outs st1 (out_rel t o) = Some (mkE n (Some rk))).
+        { apply move_fold_exact; try assumption. rewrite Hnames. exact Hnd. }
+        assert (Hframe : forall rel, ~ In rel (map (out_rel t) (map fst news)) -> s_outs st1 rel = s_outs (rn_st rn) rel).
+        { intros rel Hn. subst st1. rewrite move_fold_outs by exact Hn. reflexivity. }
+        assert (T1 : Trust st1).
+        { eapply (trust_written (rn_st rn) st1 t ins news); try eassumption.
+          subst st1. rewrite move_fold_cache. reflexivity. }
+        assert (Hco : current_outs t st1 = news).
+        { apply current_outs_exact; [exact Hnames|]. intros o n Hin. eexists. apply Hexact. exact Hin. }
+        assert (Houts : forall o, In o (outputs t) -> out_of st1 t o = alookup o news).
+        { intros o Ho. rewrite <- Hnames in Ho. destruct (alookup_names news o Ho) as [n Hn]. rewrite Hn.
+          unfold out_of. rewrite (Hexact o n (alookup_some_in _ _ _ Hn)). reflexivity. }
+        destruct c.
+        * rewrite Hco. split; [apply trust_set_cache; assumption|].
+          split; [intros rel Hn; cbn [s_outs set_cache]; apply Hframe; rewrite Hnames; exact Hn|].
+          split; [reflexivity|]. intros o Ho. unfold out_of. cbn [s_outs set_cache]. apply Houts. exact Ho.
+        * split; [exact T1|]. split; [intros rel Hn; apply Hframe; rewrite Hnames; exact Hn|].
+          split; [reflexivity|exact Houts].
     - (* skipped as up to date: Trust says the outputs are what the action would produce *)
-      split; [exact T|].
+      split; [exact T|]. split; [reflexivity|].
       unfold needs_build in Enb. apply orb_false_elim in Enb. destruct Enb as [_ Enb].
       destruct (common_rec (rn_st rn) (out_rels t)) as [rk|] eqn:Ecr; [|discriminate].
       apply orb_false_elim in Enb. destruct Enb as [Edk Esrc].
@@ -371,6 +461,7 @@ Section Trust.
 
   Definition step_spec (rn rn' : run) (t : target) : Prop :=
     Trust (rn_st rn')
+    /\ (forall rel, ~ In rel (out_rels t) -> s_outs (rn_st rn') rel = s_outs (rn_st rn) rel)
     /\ match outcome (rn_st rn) t with
        | Some news => rn_failed rn' = rn_failed rn
                       /\ forall o, In o (outputs t) -> out_of (rn_st rn') t o = alookup o news /\ alookup o news <> None
@@ -384,23 +475,24 @@ Section Trust.
     destruct Hin as [<-|Hin]; [exists c; exact E|apply IH; assumption].
   Qed.
 
-  Lemma build_one_spec rn done t todo : r_targets r = done ++ t :: todo -> blocked r rn t = false ->
-    Trust (rn_st rn) -> step_spec rn (build_one false r rn t) t.
+  Lemma build_one_spec c rn done t todo : r_targets r = done ++ t :: todo -> blocked r rn t = false ->
+    Trust (rn_st rn) -> step_spec rn (build_one c r rn t) t.
   Proof.
     intros Hs Hb T. unfold build_one. rewrite Hb. unfold step_spec, outcome, fail_count.
     pose proof (outputs_nodup done t todo Hs) as Hnd.
     destruct (is_filegroup t) eqn:Efg.
     - rewrite build_filegroup_fold. destruct (fg_fold_spec t (outputs t) rn Hnd T) as (T' & Hf & Ho).
-      split; [exact T'|]. destruct (missing t (outputs t)) eqn:Em.
-      + split; [exact Hf|]. intros o Hin. destruct (missing_zero t _ Em o Hin) as [c Hc].
+      split; [exact T'|]. split; [rewrite <- build_filegroup_fold; apply build_filegroup_frame|].
+      destruct (missing t (outputs t)) eqn:Em.
+      + split; [exact Hf|]. intros o Hin. destruct (missing_zero t _ Em o Hin) as [c0 Hc].
         assert (Hl : alookup o (map (fun f => (f, match alookup (join (t_pkg t) f) (r_files r) with
-                                     | Some c => File false c | None => File false [] end)) (outputs t)) = Some (File false c)).
+                                     | Some c => File false c | None => File false [] end)) (outputs t)) = Some (File false c0)).
         { apply alookup_in.
           - rewrite map_map. cbn [fst]. rewrite map_id. exact Hnd.
           - apply in_map_iff. exists o. rewrite Hc. split; [reflexivity|exact Hin]. }
         rewrite Hl. split; [apply Ho; assumption|discriminate].
       + exact Hf.
-    - destruct (build_rule_spec rn done t todo Hs Efg T) as [T' Hspec]. split; [exact T'|].
+    - destruct (build_rule_spec c rn done t todo Hs Efg T) as (T' & Hfr & Hspec). split; [exact T'|]. split; [exact Hfr|].
       destruct (gather (read r (rn_st rn)) (all_paths r t)) as [ins|]; [|exact Hspec].
       destruct (act (t_kind t) (outputs t) (tmp_ins ins)) as [news|] eqn:Ea; [|exact Hspec].
       destruct Hspec as [Hf Ho]. split; [exact Hf|]. intros o Hin. split; [apply Ho; exact Hin|].
@@ -453,10 +545,10 @@ Section Trust.
     rewrite Hg. reflexivity.
   Qed.
 
-  Lemma sim : forall todo done a b, r_targets r = done ++ todo ->
+  Lemma sim ca cb : forall todo done a b, r_targets r = done ++ todo ->
     Trust (rn_st a) -> Trust (rn_st b) -> rn_failed a = rn_failed b -> Agree done a b ->
-    let a' := fold_left (build_one false r) todo a in
-    let b' := fold_left (build_one false r) todo b in
+    let a' := fold_left (build_one ca r) todo a in
+    let b' := fold_left (build_one cb r) todo b in
     Trust (rn_st a') /\ Trust (rn_st b') /\ rn_failed a' = rn_failed b' /\ Agree (r_targets r) a' b'.
   Proof.
     induction todo as [|t todo IH]; intros done a b Hs Ta Tb Hf Hag; cbn [fold_left].
@@ -464,14 +556,14 @@ Section Trust.
     - cbn zeta. apply (IH (done ++ [t])); clear IH.
       + rewrite <- app_assoc. exact Hs.
       + unfold build_one. destruct (blocked r a t) eqn:Eb; [exact Ta|].
-        destruct (build_one_spec a done t todo Hs Eb Ta) as [T _]. unfold build_one in T. rewrite Eb in T. exact T.
+        destruct (build_one_spec ca a done t todo Hs Eb Ta) as [T _]. unfold build_one in T. rewrite Eb in T. exact T.
       + unfold build_one. destruct (blocked r b t) eqn:Eb; [exact Tb|].
-        destruct (build_one_spec b done t todo Hs Eb Tb) as [T _]. unfold build_one in T. rewrite Eb in T. exact T.
+        destruct (build_one_spec cb b done t todo Hs Eb Tb) as [T _]. unfold build_one in T. rewrite Eb in T. exact T.
       + assert (Ebb : blocked r b t = blocked r a t) by (unfold blocked; rewrite Hf; reflexivity).
         destruct (blocked r a t) eqn:Eb.
         * unfold build_one. rewrite Eb, Ebb. cbn. rewrite Hf. reflexivity.
-        * destruct (build_one_spec a done t todo Hs Eb Ta) as [_ Sa].
-          destruct (build_one_spec b done t todo Hs Ebb Tb) as [_ Sb].
+        * destruct (build_one_spec ca a done t todo Hs Eb Ta) as (_ & _ & Sa).
+          destruct (build_one_spec cb b done t todo Hs Ebb Tb) as (_ & _ & Sb).
           rewrite <- (outcome_agree done t todo a b Hs Hf Eb Hag) in Sb.
           destruct (outcome (rn_st a) t) as [news|].
           -- destruct Sa as [-> _], Sb as [-> _]. exact Hf.
@@ -479,17 +571,22 @@ Section Trust.
       + assert (Ebb : blocked r b t = blocked r a t) by (unfold blocked; rewrite Hf; reflexivity).
         intros d Hd Hnf o Ho. apply in_app_or in Hd. destruct Hd as [Hd|[<-|[]]].
         * (* an earlier target: untouched on both sides *)
-          destruct (build_one_frame r a t) as [Fa _]. destruct (build_one_frame r b t) as [Fb _].
+          assert (Fa : forall rel, ~ In rel (out_rels t) -> s_outs (rn_st (build_one ca r a t)) rel = s_outs (rn_st a) rel).
+          { destruct (blocked r a t) eqn:Eb; [unfold build_one; rewrite Eb; reflexivity|].
+            apply (build_one_spec ca a done t todo Hs Eb Ta). }
+          assert (Fb : forall rel, ~ In rel (out_rels t) -> s_outs (rn_st (build_one cb r b t)) rel = s_outs (rn_st b) rel).
+          { destruct (blocked r b t) eqn:Eb; [unfold build_one; rewrite Eb; reflexivity|].
+            apply (build_one_spec cb b done t todo Hs Eb Tb). }
           assert (Hnot : ~ In (out_rel d o) (out_rels t)).
           { intros Hi. eapply (outs_disjoint r done t todo d); try eassumption. unfold out_rels. apply in_map. exact Ho. }
           unfold out_of. rewrite (Fa _ Hnot), (Fb _ Hnot). apply (Hag d Hd); [|exact Ho].
-          intros Hi. apply Hnf. destruct (build_one_failed false r a t) as [n Hn]. rewrite Hn. apply in_or_app. right. exact Hi.
+          intros Hi. apply Hnf. destruct (build_one_failed ca r a t) as [n Hn]. rewrite Hn. apply in_or_app. right. exact Hi.
         * (* the target just built *)
           destruct (blocked r a t) eqn:Eb.
           { exfalso. apply Hnf. unfold build_one. rewrite Eb. left. reflexivity. }
-          destruct (build_one_spec a done t todo Hs Eb Ta) as [_ Sa].
+          destruct (build_one_spec ca a done t todo Hs Eb Ta) as (_ & _ & Sa).
           assert (Ebf : blocked r b t = false) by congruence.
-          destruct (build_one_spec b done t todo Hs Ebf Tb) as [_ Sb].
+          destruct (build_one_spec cb b done t todo Hs Ebf Tb) as (_ & _ & Sb).
           rewrite <- (outcome_agree done t todo a b Hs Hf Eb Hag) in Sb.
           destruct (outcome (rn_st a) t) as [news|] eqn:Eo.
           -- destruct Sa as [_ Sa], Sb as [_ Sb]. destruct (Sa o Ho) as [Ea Hne], (Sb o Ho) as [Eb' _].
@@ -501,14 +598,14 @@ Section Trust.
              destruct (fail_count t); [congruence|]. left. reflexivity.
   Qed.
 
-  Theorem builds_agree sta stb : Trust sta -> Trust stb ->
-    let a := build_all false r sta in
-    let b := build_all false r stb in
+  Theorem builds_agree ca cb sta stb : Trust sta -> Trust stb ->
+    let a := build_all ca r sta in
+    let b := build_all cb r stb in
     Trust (rn_st a) /\ rn_failed a = rn_failed b
     /\ forall t, In t (r_targets r) -> ~ In (t_label t) (rn_failed a) -> outs_of (rn_st a) t = outs_of (rn_st b) t.
   Proof.
     intros Ta Tb. cbn zeta. unfold build_all.
-    destruct (sim (r_targets r) [] (mkRun sta [] []) (mkRun stb [] []) eq_refl Ta Tb eq_refl) as (T & _ & Hf & Hag).
+    destruct (sim ca cb (r_targets r) [] (mkRun sta [] []) (mkRun stb [] []) eq_refl Ta Tb eq_refl) as (T & _ & Hf & Hag).
     { intros d []. }
     split; [exact T|]. split; [exact Hf|]. intros t Ht Hnf. unfold outs_of. apply map_ext_in. intros o Ho.
     f_equal. apply (Hag t Ht Hnf o Ho).
@@ -533,39 +630,41 @@ Section History.
 
   Let TrustU := Trust U good.
 
-  Lemma step_wf_parts r req : step_wf (HBuild false r req) = true ->
+  Lemma step_wf_parts c r req : step_wf (HBuild c r req) = true ->
     WF (restrict r req) /\ distinct_srcs (restrict r req) = true.
   Proof. cbn [step_wf]. intros H. apply andb_prop in H. destruct H as [H1 H2]. split; [apply wf_repo_WF; exact H1|exact H2]. Qed.
 
-  Lemma trust_history : forall h st, forallb step_wf h = true -> cache_free h = true ->
+  Lemma trust_history : forall h st, forallb step_wf h = true ->
     (forall t, In t (history_targets h) -> U t) -> TrustU st -> TrustU (run_history h st).
   Proof.
-    induction h as [|s0 h IH]; intros st Hwf Hcf HU T; [exact T|].
+    induction h as [|s0 h IH]; intros st Hwf HU T; [exact T|].
     cbn [forallb] in Hwf. apply andb_prop in Hwf. destruct Hwf as [Hs Hwf].
-    cbn [cache_free forallb] in Hcf. apply andb_prop in Hcf. destruct Hcf as [Hc Hcf].
     unfold run_history. cbn [fold_left]. apply IH; try assumption.
     - intros t Ht. apply HU. cbn [history_targets flat_map]. apply in_or_app. right. exact Ht.
     - destruct s0 as [c r req|]; cbn [do_hstep].
-      + apply negb_true_iff in Hc. subst c. destruct (step_wf_parts r req Hs) as [W Hd].
+      + destruct (step_wf_parts c r req Hs) as [W Hd].
         unfold plz_build.
-        apply (builds_agree U good U_inj good_inj good_file act_good (restrict r req) W Hd) with (stb := st); try exact T.
-        intros t Ht. apply HU. cbn [history_targets flat_map]. apply in_or_app. left. apply restrict_incl in Ht. exact Ht.
+        assert (HUr : forall t, In t (r_targets (restrict r req)) -> U t).
+        { intros t Ht. apply HU. cbn [history_targets flat_map]. apply in_or_app. left. apply restrict_incl in Ht. exact Ht. }
+        destruct (builds_agree U good U_inj good_inj good_file act_good (restrict r req) W Hd HUr c false st st T T) as [T' _].
+        exact T'.
       + apply trust_wipe. exact T.
   Qed.
 
-  (* after any history, an incremental build agrees with a clean one *)
-  Theorem incremental_is_clean h r req :
-    forallb step_wf (h ++ [HBuild false r req]) = true -> cache_free h = true ->
-    (forall t, In t (history_targets (h ++ [HBuild false r req])) -> U t) ->
-    let incr := plz_build false r req (run_history h empty_store) in
+  (* after any history (builds with or without the cache, rm -rf plz-out), a build - with or without the
+     cache - agrees with a clean build without cache *)
+  Theorem incremental_is_clean c h r req :
+    forallb step_wf (h ++ [HBuild c r req]) = true ->
+    (forall t, In t (history_targets (h ++ [HBuild c r req])) -> U t) ->
+    let incr := plz_build c r req (run_history h empty_store) in
     let clean := plz_build false r req empty_store in
     rn_failed incr = rn_failed clean
     /\ forall t, In t (r_targets (restrict r req)) -> ~ In (t_label t) (rn_failed clean) ->
        outs_of (rn_st incr) t = outs_of (rn_st clean) t.
   Proof.
-    intros Hwf Hcf HU. rewrite forallb_app in Hwf. apply andb_prop in Hwf. destruct Hwf as [Hwfh Hlast].
+    intros Hwf HU. rewrite forallb_app in Hwf. apply andb_prop in Hwf. destruct Hwf as [Hwfh Hlast].
     cbn [forallb] in Hlast. apply andb_prop in Hlast. destruct Hlast as [Hlast _].
-    destruct (step_wf_parts r req Hlast) as [W Hd].
+    destruct (step_wf_parts c r req Hlast) as [W Hd].
     assert (T : TrustU (run_history h empty_store)).
     { apply trust_history; try assumption.
       - intros t Ht. apply HU. unfold history_targets. rewrite flat_map_app. apply in_or_app. left. exact Ht.
@@ -574,7 +673,7 @@ Section History.
     assert (HUr : forall t, In t (r_targets (restrict r req)) -> U t).
     { intros t Ht. apply HU. unfold history_targets. rewrite flat_map_app. apply in_or_app. right.
       cbn [flat_map]. rewrite app_nil_r. apply restrict_incl in Ht. exact Ht. }
-    destruct (builds_agree U good U_inj good_inj good_file act_good (restrict r req) W Hd HUr
+    destruct (builds_agree U good U_inj good_inj good_file act_good (restrict r req) W Hd HUr c false
                 (run_history h empty_store) empty_store T (trust_empty U good)) as (_ & Hf & Ho).
     split; [exact Hf|]. intros t Ht Hnf. apply Ho; [exact Ht|]. rewrite Hf. exact Hnf.
   Qed.
@@ -607,23 +706,23 @@ Proof.
     cbn [map snd]. constructor; [eexists; reflexivity|constructor].
 Qed.
 
-(* C01, partial: histories without directory outputs *)
-Theorem incremental_is_clean_files h r req :
-  wf_history (h ++ [HBuild false r req]) -> cache_free h = true -> dir_free (h ++ [HBuild false r req]) ->
-  let incr := plz_build false r req (run_history h empty_store) in
+(* C01 / C02, partial: histories without directory outputs; c = false is C01, c = true is C02 *)
+Theorem incremental_is_clean_files c h r req :
+  wf_history (h ++ [HBuild c r req]) -> dir_free (h ++ [HBuild c r req]) ->
+  let incr := plz_build c r req (run_history h empty_store) in
   let clean := plz_build false r req empty_store in
   run_ok incr = run_ok clean
   /\ rn_failed incr = rn_failed clean
   /\ forall t, In t (r_targets (restrict r req)) -> ~ In (t_label t) (rn_failed clean) ->
      outs_of (rn_st incr) t = outs_of (rn_st clean) t.
 Proof.
-  intros [Hwf Hkeys] Hcf Hdf.
-  set (U := fun t => In t (history_targets (h ++ [HBuild false r req]))).
+  intros [Hwf Hkeys] Hdf.
+  set (U := fun t => In t (history_targets (h ++ [HBuild c r req]))).
   assert (H1 : forall t t', U t -> U t' -> t_defkey t = t_defkey t' -> t = t') by (intros t t' Ht Ht'; apply Hkeys; assumption).
-  assert (H2 : forall c, is_file (File false c)) by (intros c; exists c; reflexivity).
+  assert (H2 : forall c, is_file (File false c)) by (intros c0; exists c0; reflexivity).
   assert (H3 : forall t ins news, U t -> Forall is_file (map snd ins) ->
              act (t_kind t) (outputs t) ins = Some news -> Forall is_file (map snd news))
     by (intros t ins news Ut; apply act_files; apply Hdf; exact Ut).
-  destruct (incremental_is_clean U is_file H1 is_file_inj H2 H3 h r req Hwf Hcf (fun t Ht => Ht)) as [Hf Ho].
+  destruct (incremental_is_clean U is_file H1 is_file_inj H2 H3 c h r req Hwf (fun t Ht => Ht)) as [Hf Ho].
   cbn zeta in *. split; [unfold run_ok; rewrite Hf; reflexivity|]. split; [exact Hf|exact Ho].
 Qed.
